@@ -79,6 +79,13 @@ type Violation struct {
 	// NoReplay: the evidence is a report of an external observer over the whole run (race detector log);
 	// it cannot be re-derived from a single case and is not re-checked in a fresh process.
 	NoReplay bool `json:"no_replay,omitempty"`
+	// position of the case in its worker's plan: a violation that depends on what the process did before
+	// (package-level state, builder histories) is re-checked by re-running the shard up to this position
+	Shard int `json:"shard"`
+	Of    int `json:"of"`
+	Pos   int `json:"pos"`
+	// NeedsHistory is set by the parent when the case alone did not reproduce but the shard prefix did
+	NeedsHistory bool `json:"needs_history,omitempty"`
 }
 
 func (v *Violation) Class() string { return v.Property + "|" + v.Clause + "|" + v.Key }
@@ -95,6 +102,7 @@ type Result struct {
 	Violations   []*Violation               `json:"violations"`
 	PerStratum   map[string]int             `json:"per_stratum"`
 	Done         bool                       `json:"done"`
+	CkptPos      int                        `json:"ckpt_pos"` // partial results: plan position not yet run
 	distinct     map[uint64]struct{}
 }
 
@@ -181,6 +189,7 @@ type T struct {
 	W       *Worker
 	Stratum *Stratum
 	Index   int
+	Pos     int
 	rng     *rand.Rand
 	nviol   int
 }
@@ -229,6 +238,7 @@ func (t *T) Violate(clause, key, what string, witness map[string]any) {
 	t.W.Res.Violations = append(t.W.Res.Violations, &Violation{
 		Property: t.W.Prop.ID, Clause: clause, Key: key, What: what,
 		Stratum: t.Stratum.Name, Index: t.Index, Seed: t.W.Seed, Tier: t.W.Tier, Witness: witness,
+		Shard: t.W.Shard, Of: t.W.Of, Pos: t.Pos,
 	})
 }
 
@@ -356,7 +366,7 @@ func (w *Worker) stratum(name string) *Stratum {
 }
 
 // RunWorker executes the shard (or the single case `only`) and writes the result file.
-func RunWorker(w *Worker, skip int, only *CaseRef, journalPath, outPath string) {
+func RunWorker(w *Worker, skip int, upto int, only *CaseRef, journalPath, outPath string) {
 	w.Res = NewResult()
 	w.State = map[string]any{}
 	if w.CPULimit == 0 {
@@ -398,8 +408,22 @@ func RunWorker(w *Worker, skip int, only *CaseRef, journalPath, outPath string) 
 			}
 		}
 	}()
+	if upto >= 0 && upto+1 < len(plan) && only == nil {
+		plan = plan[:upto+1]
+	}
+	lastCkpt := time.Now()
 	for pos := skip; pos < len(plan); pos++ {
 		c := plan[pos]
+		if outPath != "" && time.Since(lastCkpt) > 2*time.Second {
+			// checkpoint: if this process dies, the parent still gets what was observed so far
+			w.Res.finalize()
+			w.Res.CkptPos = pos
+			if b, err := json.Marshal(w.Res); err == nil {
+				os.WriteFile(outPath+".partial.tmp", b, 0o644)
+				os.Rename(outPath+".partial.tmp", outPath+".partial")
+			}
+			lastCkpt = time.Now()
+		}
 		s := w.stratum(c.Stratum)
 		if s == nil {
 			continue
@@ -410,7 +434,7 @@ func RunWorker(w *Worker, skip int, only *CaseRef, journalPath, outPath string) 
 		}
 		w.curCase.Store(fmt.Sprintf("%s:%d", c.Stratum, c.Index))
 		w.caseStartCPU.Store(int64(cpuNow()) + 1)
-		t := &T{W: w, Stratum: s, Index: c.Index}
+		t := &T{W: w, Stratum: s, Index: c.Index, Pos: pos}
 		t.Guard("case "+c.Stratum, nil, func() { s.Run(t) })
 		w.caseStartCPU.Store(0)
 		w.Res.Evaluations++
